@@ -65,12 +65,17 @@ fn main() {
         let v: vf_explore::Value = vf_explore::serde_json::from_str(&txt).unwrap_or_else(|e| machinery(&format!("bad replay json: {e}")));
         v["case"].clone()
     });
-    match cli.property.as_str() {
+    // Panics of the subject are caught per case inside the engines; anything that escapes to
+    // here (flow construction, simulator compilation, harness bug) is a machinery error.
+    let r = vf_explore::catch(std::panic::AssertUnwindSafe(|| match cli.property.as_str() {
         "C31" => c31::run(&mut rep, thorough, replay),
         "C34" => c34::run(&mut rep, thorough, replay),
         "C39" => c39::run(&mut rep, thorough, replay),
         "C40" => c40::run(&mut rep, thorough, replay),
         other => machinery(&format!("vf_hydro_sim2 does not serve property {other}")),
+    }));
+    if let Err(m) = r {
+        machinery(&format!("engine panicked outside a simulated case: {m}"));
     }
     rep.finish();
 }
